@@ -227,4 +227,17 @@ example : ∀ t, ∀ j ∈ (fun t : Nat => if t = 0 then [Job.mk [.write [1], .w
 example : wfResponse [82, 84, 83, 80, 47, 49, 46, 48, 32, 50, 48, 48, 32, 79, 75, 13, 10, 67, 83, 101, 113, 58, 32, 51, 13, 10, 67, 111, 110, 116, 101, 110, 116, 45, 76, 101, 110, 103, 116, 104, 58, 32, 52, 13, 10, 13, 10, 97, 98, 99, 100] = true := by
   decide
 
+/-- non-vacuity of `c13_no_tear_complete` / `c13_stream_parses`: a media goroutine with one frame and a
+    request goroutine with one response; the schedule has the request goroutine try the lock while the
+    frame is half written (it stays blocked) and runs both to completion -/
+example :
+    let jobs : Nat → List Job := fun t =>
+      if t = 0 then [Job.mk [.write [0x24, 0, 0, 1], .write [7]]] else if t = 1 then [Job.mk [.write [82], .flush]] else []
+    ∀ t, (exec (initSt (fun t => progOf (jobs t))) [0, 0, 1, 0, 0, 1, 1, 1, 1]).threads t = [] := by
+  intro jobs t
+  match t with
+  | 0 => rfl
+  | 1 => rfl
+  | n + 2 => rfl
+
 end IpcHub.Props.C13
